@@ -202,7 +202,7 @@ impl<'a> G<'a> {
         let mut ss = Vec::with_capacity(n);
         let mut hs = Vec::with_capacity(n);
         // rarely: unreduced scalars (public-API inputs whose result C04 does not decide; configurations must still agree)
-        let unreduced_mode = self.rng.chance(1, 10);
+        let unreduced_mode = self.rng.chance(1, 10) || (n >= 800 && self.rng.coin());
         if unreduced_mode {
             bump(&mut self.c, "probe:msm_with_unreduced_scalars");
         }
